@@ -52,6 +52,10 @@ def run_one(v, repo):
             r = subprocess.run(["patch", "-p1", "-s", "-d", tmp, "-i", v["patch"]], capture_output=True, text=True)
             if r.returncode != 0:
                 return v, "SKIP", "seeded patch no longer applies"
+        for rel in v.get("prepend", []):
+            path = os.path.join(tmp, "src", "fparser", rel)
+            text = open(path).read()
+            open(path, "w").write("# twin: shifted by the checker self-test\n\n\n" + text)
         for ed in v["edits"]:
             path = os.path.join(tmp, "src", "fparser", ed["file"])
             if not os.path.exists(path):
@@ -96,6 +100,15 @@ def main():
     ap.add_argument("--repo", default="/repo")
     args = ap.parse_args()
     vs = load_variants() + load_seeded()
+    # a formatting-only twin for every claimed property: all line numbers of the main modules shift
+    try:
+        man = json.load(open(os.path.join(VERIF, "MANIFEST.json")))
+        for c in man["checks"]:
+            vs.append({"id": "%s-twin-line-shift" % c["property_id"], "property": c["property_id"], "kind": "twin", "edits": [],
+                       "prepend": ["two/utils.py", "two/Fortran2003.py", "common/readfortran.py", "common/splitline.py",
+                                   "common/sourceinfo.py", "two/symbol_table.py", "two/parser.py", "one/statements.py"]})
+    except (OSError, ValueError, KeyError):
+        pass
     if args.only:
         vs = [v for v in vs if v["property"] == args.only]
     if args.id:
